@@ -78,16 +78,49 @@ package ovmf
 //@   sweep[C08]
 //@   alloc 16 * len(a) + 64
 //@   ensures[C08] len(result) == len(a) && fresh(result)
+// Assumed of slices.SortFunc with gprCmp (ordering by Start, a permutation of the input): ascending starts, the same
+// set of addresses, and no-wrap / pairwise disjointness carried over.
+//@   ensures[assume] gprAsc(result) && (gprNoWrap(a) ==> gprNoWrap(result)) && (gprDisj(a) ==> gprDisj(result))
+//@   ensures[assume,opaque:perm] forall(k, Int, 0 <= k && k < len(a) ==> exists(m, Int, 0 <= m && m < len(a) && a[m].Start == result[k].Start && a[m].Length == result[k].Length))
+//@   ensures[assume,opaque:perm] forall(k, Int, 0 <= k && k < len(a) ==> exists(m, Int, 0 <= m && m < len(a) && result[m].Start == a[k].Start && result[m].Length == a[k].Length))
 
 // unacceptedMemRanges: RAM minus the private sections. Checked here: no panic, allocation in proportion to its
 // inputs, and termination of both loops (the inner loop either advances privIndex or, after shrinking the bank to
 // start at the end of the private region, advances it in the next iteration).
+// C05: for lists of non-wrapping, pairwise disjoint intervals (the function's documented assumption), every address
+// of every returned range lies in guest RAM and in no declared (private) section, and the returned ranges are non-empty,
+// ascending and pairwise disjoint. (Not proved: that every address of guest RAM outside the declared sections lies in a
+// returned range - the existential over the growing result did not discharge within the time limits.)
 //@ func unacceptedMemRanges
 //@   requires len(privateResources) < 17592186044416 && len(ramResources) < 17592186044416
+//@   requires[assume] gprNoWrap(privateResources) && gprNoWrap(ramResources) && gprDisj(privateResources) && gprDisj(ramResources)
 //@   assigns nothing
 //@   sweep[C08]
-//@   loop 1 invariant fresh(privateResources) && fresh(ramResources)
+//@   ghostparam q Int
+//@   ghostparam ad Int
+//@   ensures[C05,use:perm] 0 <= q && q < len(result) && result[q].Start <= ad && ad < result[q].Start + result[q].Length ==> gprIn(ramResources, ad) && !gprIn(privateResources, ad)
+//@   ensures[C05] 0 <= q && q < len(result) ==> result[q].Length != 0 && result[q].Start + result[q].Length < 18446744073709551616
+//@   ensures[C05] 0 <= q && q + 1 < len(result) ==> result[q].Start + result[q].Length <= result[q + 1].Start
+//@   loop 1 assigns ramResource
+//@   loop 1 invariant[C05] 0 <= q && q < len(unacceptedResources) ==> unacceptedResources[q].Length != 0 && unacceptedResources[q].Start + unacceptedResources[q].Length < 18446744073709551616
+//@   loop 1 invariant[C05] 0 <= q && q + 1 < len(unacceptedResources) ==> unacceptedResources[q].Start + unacceptedResources[q].Length <= unacceptedResources[q + 1].Start
+//@   loop 1 invariant[C05] forall(j, Int, len(unacceptedResources) > 0 && rangeindex < j && j < len(ramResources) && pre(ramResources[j].Length) != 0 ==> unacceptedResources[len(unacceptedResources) - 1].Start + unacceptedResources[len(unacceptedResources) - 1].Length <= pre(ramResources[j].Start))
+//@   loop 1 invariant ref(unacceptedResources) == 0 || loopfresh(unacceptedResources)
+// (the sorted copies are never written again: their contents are read in the loop-entry heap, pre(...))
+//@   loop 1 invariant[C05] 0 <= q && q < len(unacceptedResources) && unacceptedResources[q].Start <= ad && ad < unacceptedResources[q].Start + unacceptedResources[q].Length ==> pre(gprIn(ramResources, ad))
+//@   loop 1 invariant[C05] 0 <= q && q < len(unacceptedResources) && unacceptedResources[q].Start <= ad && ad < unacceptedResources[q].Start + unacceptedResources[q].Length ==> !pre(gprIn(privateResources, ad))
+//@   loop 1 invariant[C05] forall(k, Int, forall(j, Int, 0 <= k && k < privIndex && rangeindex < j && j < len(ramResources) && pre(privateResources[k].Length != 0 && ramResources[j].Length != 0) ==> pre(privateResources[k].Start + privateResources[k].Length <= ramResources[j].Start)))
 //@   loop 1 invariant 0 <= privIndex && privIndex <= len(privateResources) && (ref(unacceptedResources) == 0 || (fresh(unacceptedResources) && ref(unacceptedResources) != ref(privateResources) && ref(unacceptedResources) != ref(ramResources)))
+//@   loop 2 assigns unacceptedResources[*cap], ramResource, privateRegion
+//@   loop 2 invariant[C05] 0 <= q && q < len(unacceptedResources) ==> unacceptedResources[q].Length != 0 && unacceptedResources[q].Start + unacceptedResources[q].Length < 18446744073709551616
+//@   loop 2 invariant[C05] 0 <= q && q + 1 < len(unacceptedResources) ==> unacceptedResources[q].Start + unacceptedResources[q].Length <= unacceptedResources[q + 1].Start
+//@   loop 2 invariant[C05] len(unacceptedResources) > 0 ==> unacceptedResources[len(unacceptedResources) - 1].Start + unacceptedResources[len(unacceptedResources) - 1].Length <= ramResource.Start
+//@   loop 2 invariant ref(unacceptedResources) == 0 || loopfresh(unacceptedResources) || (ref(unacceptedResources) == ref(pre(unacceptedResources)) && off(unacceptedResources) == off(pre(unacceptedResources)) && cap(unacceptedResources) == cap(pre(unacceptedResources)))
+//@   loop 2 invariant[C05] 0 <= q && q < len(unacceptedResources) && unacceptedResources[q].Start <= ad && ad < unacceptedResources[q].Start + unacceptedResources[q].Length ==> pre(gprIn(ramResources, ad))
+//@   loop 2 invariant[C05] 0 <= q && q < len(unacceptedResources) && unacceptedResources[q].Start <= ad && ad < unacceptedResources[q].Start + unacceptedResources[q].Length ==> !pre(gprIn(privateResources, ad))
+// (inside the outer body the bank being processed is ramResources[rangeindex + 1]: rangeindex counts completed iterations)
+//@   loop 2 invariant[C05] 0 <= rangeindex + 1 && rangeindex + 1 < len(ramResources) && pre(ramResources[rangeindex + 1].Start) <= ramResource.Start && ramResource.Start + ramResource.Length == pre(ramResources[rangeindex + 1].Start + ramResources[rangeindex + 1].Length)
+//@   loop 2 invariant[C05] forall(k, Int, 0 <= k && k < privIndex && pre(privateResources[k].Length) != 0 ==> pre(privateResources[k].Start + privateResources[k].Length) <= ramResource.Start)
 //@   loop 2 invariant 0 <= privIndex && privIndex <= len(privateResources) && (ref(unacceptedResources) == 0 || (fresh(unacceptedResources) && ref(unacceptedResources) != ref(privateResources) && ref(unacceptedResources) != ref(ramResources))) && ramResource.Length != 0
 //@   loop 2 decreases[C08] 2 * (len(privateResources) - privIndex) + ite(privIndex < len(privateResources) && privateResources[privIndex].Length != 0 && (privateResources[privIndex].Start + privateResources[privIndex].Length) % 18446744073709551616 > ramResource.Start, 1, 0)
 
